@@ -4,6 +4,7 @@ package server
 
 import (
 	"fmt"
+	"os"
 	"sort"
 	"sync"
 	"testing"
@@ -335,4 +336,70 @@ func TestVerifC07(t *testing.T) {
 		}
 	}()
 	vfutil.Run(t, vfutil.Spec[c07Case]{ID: "C07", Gen: genC07, Run: runC07, Journal: true})
+}
+
+// c07Alphabet is the operation alphabet of the bounded-exhaustive pass over a
+// 3-replica partition (replica 0 is the initial leader).
+func c07Alphabet() []c07Op {
+	var a []c07Op
+	for rep := 0; rep < 3; rep++ {
+		for stale := 0; stale < 2; stale++ {
+			a = append(a, c07Op{Op: "report", Rep: rep, Stale: stale})
+		}
+	}
+	a = append(a, c07Op{Op: "report", Rep: 1, Stale: 2})
+	for rep := 1; rep < 3; rep++ {
+		a = append(a, c07Op{Op: "shrink", Rep: rep}, c07Op{Op: "expand", Rep: rep})
+	}
+	return append(a, c07Op{Op: "lost"})
+}
+
+// TestVerifC07Exh runs every operation sequence up to length LEN over the
+// alphabet above through the executor and oracle of the random search.
+func TestVerifC07Exh(t *testing.T) {
+	defer func() {
+		if c07L != nil {
+			c07L.close()
+		}
+	}()
+	maxLen := vfutil.Param("LEN", 3)
+	shard, shards := 0, 1
+	if v := os.Getenv("VERIF_SHARD"); v != "" {
+		fmt.Sscan(v, &shard)
+	}
+	if v := os.Getenv("VERIF_SHARDS"); v != "" {
+		fmt.Sscan(v, &shards)
+	}
+	alpha := c07Alphabet()
+	vfutil.Exhaustive(t, vfutil.Spec[c07Case]{ID: "C07", Gen: genC07, Run: runC07}, func(yield func(c07Case) bool) {
+		n := 0
+		idx := make([]int, 0, maxLen)
+		var rec func() bool
+		rec = func() bool {
+			if len(idx) > 0 {
+				if n%shards == shard {
+					c := c07Case{Replicas: 3}
+					for _, i := range idx {
+						c.Ops = append(c.Ops, alpha[i])
+					}
+					if !yield(c) {
+						return false
+					}
+				}
+				n++
+			}
+			if len(idx) == maxLen {
+				return true
+			}
+			for i := range alpha {
+				idx = append(idx, i)
+				if !rec() {
+					return false
+				}
+				idx = idx[:len(idx)-1]
+			}
+			return true
+		}
+		rec()
+	})
 }
